@@ -33,8 +33,47 @@ def topGap (l : List Float) : Float :=
   | a :: b :: _ => a - b
   | _ => big
 
+/-- prox of the functional wrapped by a generic `Loss` (real data) -/
+def innerProx (name : String) (j : Json) (n : Nat) : Option (Vec Float n → Float → Vec Float n) :=
+  match name with
+  | "l0" => some l0Prox
+  | "l1" => some l1Prox
+  | "l2" => some l2Prox
+  | "sql2" => some sqL2Prox
+  | "zero" => some (fun v _ => zeroProx v)
+  | "nonneg" => some (fun v _ => nonnegProx v)
+  | "hubersep" => do let d ← fFloat? j "delta"; some (huberSepProx d)
+  | "hubernonsep" => do let d ← fFloat? j "delta"; some (huberNonsepProx d)
+  | "l2ball" => do let r ← fFloat? j "radius"; some (fun v _ => l2ballProx r v)
+  | "l1l2" => do let b ← fFloat? j "beta"; some (l1l2Prox b)
+  | _ => none
+
+def scaleOp? (j : Json) : Option (ScaleOp Float) := do
+  let l ← getList? j
+  match l with
+  | [k, c] => do
+    let k ← getStr? k
+    let c ← getFloat? c
+    match k with
+    | "mul" => some (.mul c)
+    | "div" => some (.div c)
+    | "set" => some (.set c)
+    | _ => none
+  | _ => none
+
 def handler : Handler := fun op j =>
   match op with
+  | "scale_after" => do
+    let s0 ← fFloat? j "scale0"
+    let ops ← (← fList? j "ops").mapM scaleOp?
+    some (ok (jObj [("scale", jF (scaleAfter s0 ops))]))
+  | "lossgen" => do
+    let v ← fFloats? j "v"; let y ← fFloats? j "y"; let lam ← fFloat? j "lam"; let sc ← fFloat? j "scale"
+    let inner ← fStr? j "inner"
+    let n := v.length
+    if !sameLen n [y] then none else
+    let fp ← innerProx inner j n
+    some (ok (outR (lossTranslateProx fp sc (vecOf y n) (vecOf v n) lam)))
   | "l0" => do
     let v ← fFloats? j "v"; let lam ← fFloat? j "lam"
     let n := v.length
